@@ -163,6 +163,17 @@ static std::string gen(const std::string &prop, uint64_t base, uint64_t idx, boo
             pdus[t].push_back({new_obj(t, f->spec_bytes), f});
         }
     }
+    // new API whose only pointer parameter is a PDU of a known format (none on the pinned tree): called on PDUs of that format that the
+    // calling task owns (for VSS: on a message it has just encoded), const ones also on the shared PDU
+    auto extrap_for = [&](int t, const char *fmt, int objid, bool shared_target) {
+        if (!bind_nextras_p) return;
+        std::vector<unsigned> cand;
+        for (unsigned x = 0; x < bind_nextras_p; x++)
+            if (!strcmp(bind_extras_p[x].fmt, fmt) && (!shared_target || bind_extras_p[x].is_const)) cand.push_back(x);
+        if (cand.empty() || !r.chance(0.5)) return;
+        auto xa = [&] { return (unsigned)(r.coin() ? r.below(4) : r.below(256)); };
+        calllines.push_back(strf("call t=%d fn=extrap a=%u obj=%d b=%u c=%u d=%u", t, cand[r.below(cand.size())], objid, xa(), xa(), xa()));
+    };
     int ncalls = (int)r.range(10, thorough ? 150 : 60) * ntasks;
     for (int i = 0; i < ncalls; i++) {
         int t = (int)r.below(ntasks);
@@ -198,6 +209,7 @@ static std::string gen(const std::string &prop, uint64_t base, uint64_t idx, boo
                 if (v.empty()) continue;
                 calllines.push_back(strf("call t=%d fn=get obj=%d fmt=%s f=%s via=%s", t, p.obj, f->name, fl->name, v[r.below(v.size())]));
             }
+            if (bind_nextras_p && strcmp(f->name, "Vss")) extrap_for(t, f->name, p.obj, false);
         } else if (k < 65) {  // calls with invalid arguments (rejected without effect on the unchanged tree): null PDU, field id out of range, null result
             P &p = pdus[t][r.below(pdus[t].size())];
             static const char *subs[] = {"getfield_max", "setfield_max", "getfield_ff", "setfield_ff", "lget_max", "lset_max", "lget_nullval", "get_nullpdu", "set_nullpdu",
@@ -272,6 +284,8 @@ static std::string gen(const std::string &prop, uint64_t base, uint64_t idx, boo
                 calllines.push_back(strf("call t=%d fn=vss_decode obj=%d obj2=%d obj3=%d", t, msg, pdst, adst));
                 calllines.push_back(strf("call t=%d fn=vss_pathlen obj=%d", t, msg));
             }
+            if (bind_nextras_p) extrap_for(t, "Vss", msg, false);
+            if (bind_nextras_p && shared_vss) extrap_for(t, "Vss", shared_obj, true);
         } else if (k < 97) {  // reserved addressing mode or datatype: encode/decode must leave everything untouched
             int msg = new_obj(t, 16 + (int)r.below(3) * 4);
             calllines.push_back(strf("call t=%d fn=init obj=%d fmt=Vss via=cur", t, msg));
@@ -865,6 +879,22 @@ static uint64_t do_call(const Call &c, bool &skipped) {
     }
     Obj *o = obj(c.obj);
     if (!o) { skipped = true; return 0; }
+    if (c.fn == "extrap") {
+        if (c.a >= bind_nextras_p) { skipped = true; return 0; }
+        const BindExtraP &x = bind_extras_p[c.a];
+        const BindFormat *xf = find_format(x.fmt);
+        int xt = w.tasks.cur() ? w.tasks.cur()->id : -1;
+        if (!xf || o->size < xf->spec_bytes || (o->shared && !x.is_const) || xt < 0) { skipped = true; return 0; }
+        w.in_shared_call[xt] = o->shared; w.in_call[xt] = 1; w.call_steps[xt & 7] = 0; snprintf(w.cur_fn, sizeof w.cur_fn, "%s", x.name);
+        w.calls++;
+        w.pr_extra++;
+        errno = stale_errno(c);
+        hw_enter(xt, *o, nullptr);
+        uint64_t xr = x.fn(o->p, c.b, c.c, c.d);
+        hw_leave(xt);
+        w.in_call[xt] = 0;
+        return xr;
+    }
     uint64_t res = 0;
     int tid = w.tasks.cur() ? w.tasks.cur()->id : -1;  // -1: set-up phase (main context, not monitored)
     if (tid >= 0) w.in_shared_call[tid] = o->shared;
@@ -1267,7 +1297,7 @@ static void exec(const std::string &text, bool verbose) {
     g_res.counters["probe.load_from_unknown_region"] = w.pr_unknown_load;
     g_res.counters["probe.calls_with_invalid_arguments"] = w.pr_badargs;
     g_res.counters["library_heap_blocks"] = w.pr_heap;
-    if (bind_nextras) g_res.counters["calls_of_new_pointer_free_api"] = w.pr_extra;
+    if (bind_nextras || bind_nextras_p) g_res.counters["calls_of_new_api"] = w.pr_extra;
     if (w.pr_env) g_res.counters["environment_lookups_by_library_code"] = w.pr_env;
     if (w.pr_libc_state) g_res.counters["libc_calls_with_state_object_by_library_code"] = w.pr_libc_state;
     if (w.pr_libc_dest) g_res.counters["libc_calls_writing_through_a_pointer_by_library_code"] = w.pr_libc_dest;
@@ -1422,6 +1452,7 @@ int main(int argc, char **argv) {
                 if (bind_formats[i]->funcs[k].kind == 7) {
                     bool called = false;  // (new API without pointer parameters is called through its generated thunk)
                     for (unsigned x = 0; x < bind_nextras; x++) called |= !strcmp(bind_extras[x].name, bind_formats[i]->funcs[k].name);
+                    for (unsigned x = 0; x < bind_nextras_p; x++) called |= !strcmp(bind_extras_p[x].name, bind_formats[i]->funcs[k].name);
                     if (!called) un += std::string(un.empty() ? "" : ", ") + bind_formats[i]->funcs[k].name;
                 }
         for (unsigned i = 0; bind_new_uncallable[i]; i++)
